@@ -174,6 +174,16 @@ def check_sources(c):
                     lambda: got.append((int(sched.clock) - 200, "C", None)))
         sched.start()
         exp = [(int(t), k, v) for (t, k, v) in want]
+    elif kind == "hot.datetime":
+        # an ABSOLUTE due time: one day + 200.5 virtual seconds after the scheduler's clock (days and fractions must survive)
+        from datetime import timedelta as _td
+        got = []
+        off = 86400 + 200.5
+        o = rx.hot(s, timespan=10, duetime=sched.now + _td(seconds=off), scheduler=sched)
+        o.subscribe(lambda v: got.append((round(sched.clock - off, 3), "N", v)), lambda e: got.append((round(sched.clock - off, 3), "E", None)),
+                    lambda: got.append((round(sched.clock - off, 3), "C", None)))
+        sched.start()
+        exp = [(round(float(t), 3), k, v) for (t, k, v) in want]
     else:
         with marbles_testing(timespan=10) as (start, cold, hot, exp_):
             src = cold(s) if kind == "testing.cold" else hot(s)
@@ -247,7 +257,7 @@ def main(argv):
                 todo.append({"s": s, "timespan": 10, "shift": 0, "lookup": li, "raise_stopped": rs})
         todo.append({"s": s, "timespan": 0.5, "shift": 3.0, "lookup": 1, "raise_stopped": False})
         if len(s) <= min(max_len, 4):
-            for src in ("from_marbles", "hot", "testing.cold", "testing.hot"):
+            for src in ("from_marbles", "hot", "hot.datetime", "testing.cold", "testing.hot"):
                 todo.append({"s": s, "source": src})
         for c in todo:
             n += 1
